@@ -33,7 +33,20 @@ async fn mix(role: Role, seed: u64, rep: &mut Report) {
     if role == Role::Server {
         script.burn = [0usize, 1, 0, 2, 16, 0, 5][(seed % 7) as usize];
     }
-    let live = match scen::establish(role, &script, Duration::from_secs(6)).await {
+    // every third server-role case: foreign and live streams arrive in the same flight as the
+    // CONNECT request, 300 ms before the application accepts the session
+    let early_case = role == Role::Server && seed % 3 == 0;
+    if early_case {
+        let sid0 = 4 * script.burn as u64;
+        let (f1, f2) = (sid0 + 4 * (1 + seed % 5), if sid0 == 0 { 20 } else { 0 });
+        script.early = vec![
+            (false, [h3::wt_uni_preamble(f1), format!("F-early-uni-{seed}").into_bytes()].concat()),
+            (true, [h3::wt_bidi_preamble(f2), format!("F-early-bi-{seed}").into_bytes()].concat()),
+            (false, [h3::wt_uni_preamble(sid0), format!("L-early-{seed}").into_bytes()].concat()),
+        ];
+        script.accept_delay = ms(300);
+    }
+    let mut live = match scen::establish(role, &script, Duration::from_secs(6)).await {
         Ok(l) => l,
         Err(e) => {
             rep.inconclusive(format!("establish: {e:?}"));
@@ -78,6 +91,11 @@ async fn mix(role: Role, seed: u64, rep: &mut Report) {
     let mut foreign: Vec<u64> = vec![4, 8, 4 << 10, 4 << 28, rv::MAX - 3];
     // the ids an id-arithmetic slip would confuse with the live one
     foreign.extend([0, sid.saturating_mul(4).min(rv::MAX - 3), sid / 4 & !3, sid + 4, sid.saturating_sub(4)]);
+    // every length class of the quarter-id varint, at its edges and at the values whose first byte
+    // repeats the live quarter id in its low bits
+    for q in [63u64, 64, 65, 255, 256, 16383, 16384, (1 << 30) - 1, 1 << 30, (sid / 4) | 0x40, ((sid / 4) << 8) | 0x4000, (sid / 4) << 8, 64 + rng.below(192)] {
+        foreign.push((q * 4).min(rv::MAX - 3));
+    }
     foreign.sort_unstable();
     foreign.dedup();
     foreign.retain(|f| *f != sid && *f % 4 == 0);
@@ -91,6 +109,16 @@ async fn mix(role: Role, seed: u64, rep: &mut Report) {
     let mut want_streams = BTreeSet::new();
     let mut want_dgrams = BTreeSet::new();
     let mut f_streams: Vec<(String, quinn::SendStream)> = vec![];
+    if early_case && live.early.len() == 3 {
+        let mut l = live.early.pop().unwrap();
+        let _ = l.finish();
+        live.peer.keep_s(l);
+        want_streams.insert(format!("L-early-{seed}"));
+        let b = live.early.pop().unwrap();
+        let u = live.early.pop().unwrap();
+        f_streams.push((format!("F-early-uni-{seed}"), u));
+        f_streams.push((format!("F-early-bi-{seed}"), b));
+    }
     let mut shape = BTreeSet::new();
     for i in 0..n {
         let is_foreign = rng.chance(1, 2);
@@ -142,6 +170,9 @@ async fn mix(role: Role, seed: u64, rep: &mut Report) {
             }
         }
     }
+    if early_case {
+        shape.insert("early-flight".to_string());
+    }
     rep.eval(format!("{role:?}|sid={sid}|{}", shape.iter().cloned().collect::<Vec<_>>().join("+")));
     // live traffic must be delivered within the bound
     let t0 = Instant::now();
@@ -188,9 +219,15 @@ async fn mix(role: Role, seed: u64, rep: &mut Report) {
     .await;
     {
         let g = log.lock().unwrap();
-        for s in g.streams.iter().chain(g.dgrams.iter()) {
-            if s.starts_with("F-") {
-                rep.violation("C17|live|foreign-delivered", format!("payload {s:?} of a foreign session reached the application"), J::obj([("role", J::s(format!("{role:?}"))), ("seed", J::u(seed))]));
+        // everything the application was handed must be something the peer sent for THIS session,
+        // byte for byte (a foreign payload may arrive with framing bytes stuck to it)
+        let probe = format!("L-probe-{seed}");
+        for (kind, s) in g.streams.iter().map(|s| ("stream", s)).chain(g.dgrams.iter().map(|s| ("datagram", s))) {
+            let known = if kind == "stream" { want_streams.contains(s) || *s == probe } else { want_dgrams.contains(s) };
+            if s.contains("F-") {
+                rep.violation("C17|live|foreign-delivered", format!("{kind} payload {s:?} of a foreign session reached the application"), J::obj([("role", J::s(format!("{role:?}"))), ("seed", J::u(seed)), ("live_session", J::u(sid))]));
+            } else if !known {
+                rep.violation("C17|live|unexpected-delivery", format!("{kind} payload {s:?} reached the application but was never sent for session {sid}"), J::obj([("role", J::s(format!("{role:?}"))), ("seed", J::u(seed))]));
             }
         }
         let have: BTreeSet<String> = g.streams.iter().cloned().collect();
